@@ -6,12 +6,14 @@
 from typing import List, Tuple, Union, cast
 
 import libcst
+import libcst.matchers as m
 from libcst import (
     BaseCompoundStatement,
     BaseSmallStatement,
     BaseSuite,
     CSTTransformer,
     FlattenSentinel,
+    If,
     Import,
     ImportFrom,
     ImportStar,
@@ -133,6 +135,17 @@ class MoveImportsToTypeCheckingBlockVisitor(ContextAwareTransformer):
                 ret.append(import_item)
         return ret
 
+    @staticmethod
+    def _imports_under_type_checking(tree: Module) -> List[ImportItem]:
+        type_checking = m.Name("TYPE_CHECKING") | m.Attribute(
+            value=m.Name(), attr=m.Name("TYPE_CHECKING")
+        )
+        gatherer = GatherImportsVisitor(CodemodContext())
+        for statement in tree.body:
+            if m.matches(statement, m.If(test=type_checking)):
+                cast(If, statement).body.visit(gatherer)
+        return list(gatherer.symbol_mapping.values())
+
     def transform_module_impl(
         self,
         tree: Module,
@@ -157,6 +170,15 @@ class MoveImportsToTypeCheckingBlockVisitor(ContextAwareTransformer):
             # Remove the newer imports since those are to be
             # shifted inside the if TYPE_CHECKING block
             tree = self._remove_imports(tree)
+
+            # An import that an existing module-level if TYPE_CHECKING block
+            # already holds needs no second block
+            already_confined = self._imports_under_type_checking(tree)
+            self.import_items_to_be_moved = [
+                import_item
+                for import_item in self.import_items_to_be_moved
+                if import_item not in already_confined
+            ]
 
             # Add the new imports inside if TYPE_CHECKING block
             tree = self._add_if_type_checking_block(tree)
